@@ -27,7 +27,7 @@ contract(M + "_special_constraints_eq_zero", props=["C02"], trusted=True,
               "checked by the bounded stand-in (C02 special-form clauses)")
 
 _F = "(den(self) - old(den(self)))"
-contract(M + "PCBO.add_constraint_eq_zero", props=["C02", "C06"],
+contract(M + "PCBO.add_constraint_eq_zero", props=["C02", "C06", "C19"],
          instances=[{"self": "model:PCBO", "P": p, "lam": "real", "bounds": b, "suppress_warnings": "const:False"}
                     for p in PK for b in BND],
          requires=["wf(self)", "lam > 0", "isint(bden(P))", "encloses(bounds, bden(P))",
